@@ -78,6 +78,9 @@ def _generate_operator(ns, node):
         # Comparisons are 1-bit unsigned.
         if operator in ["<", "<=", "==", "!=", ">", ">="]:
             s = False
+        # Shifts have the signedness of their left operand.
+        elif operator in ["<<<", ">>>"]:
+            s = s1
         else:
             s = s1 or s2
 
